@@ -184,7 +184,7 @@ CLAIMS: dict[str, tuple[str, str, str, str]] = {
         "balance_pairs, _postProcess; tie: `inline`) and emini_wellformed (Props/C02f.lean) proves for every source, rule subset with "
         "emphasis on, maxNesting and character classification that the inline stream is levelled from 0, balanced, and builds a tree. "
         "emini_tags_nested (Props/C02g.lean): its opening and closing tokens pair up by tag in stack order (the HTML written for them is "
-        "properly nested), from pairs_laminar via nest_of_desc. m_wellformed (Props/C02h.lean): the same for the block sub-parser with html_block and lheading (nine of the eleven block rules; tie `mblock`). MISSING: the same through strikethrough's lone-marker swap (modelled, tied, "
+        "properly nested), from pairs_laminar via nest_of_desc. xmini_wellformed (Props/C02i.lean): the same with autolink (which pushes an opening and a closing token), html_inline and entity in the chain — the loop invariant generalised from 'all tokens have nesting 0' to 'balanced so far, delimiter records point at nesting-0 tokens' — eight of the twelve inline rules. m_wellformed (Props/C02h.lean): the same for the block sub-parser with html_block and lheading (nine of the eleven block rules; tie `mblock`). MISSING: the same through strikethrough's lone-marker swap (modelled, tied, "
         "total — not in the nesting theorems), link/image; and K5 for the remaining block/inline rules (monitored). Both are decided by the oracle: the property's predicate on every stream, recursively, "
         "incl. a bounded-exhaustive delimiter sweep. Known finding K-C02-1 (parseInline wrapper not flagged block, "
         "pinned by a test).",
